@@ -62,6 +62,16 @@ def _l4_fetch_complete(L: int, b: int, F: int, site: int, rs: int, re: int) -> b
     return S.check_fetch_complete(B.blacklisted_binning, L, b, F, site, rs, re) is None
 
 
+def _l5_job(n: int, c0: int, c1: int, c2: int, v0: bool, v1: bool, v2: bool, v3: bool) -> bool:
+    """
+    pre: 1 <= n <= 3
+    pre: 0 <= c0 <= 2 and 0 <= c1 <= 2 and 0 <= c2 <= 2
+    pre: c0 + c1 + c2 <= 4
+    post: _
+    """
+    return S.check_tagging_job(TG, [c0, c1, c2][:n], [v0, v1, v2, v3]) is None
+
+
 _T = {'quick': 150, 'thorough': 900}
 LEMMAS = [
     dict(name='L1_tiling_ownership', fn='_l1_ownership', engine='E1', timeout=_T, replay='replay.C08:replay',
@@ -72,10 +82,11 @@ LEMMAS = [
     dict(name='L4_fetch_complete', fn='_l4_fetch_complete', engine='E1', timeout=_T, replay='replay.C08:replay',
          cases={'quick': [dict(id='L%d' % L, pre=['L == %d' % L]) for L in (1, 2, 3, 4, 5)],
                 'thorough': [dict(id='L%d' % L, pre=['L == %d' % L]) for L in (1, 2, 3, 4, 5, 6)]}),
+    dict(name='L5_job_bookkeeping', fn='_l5_job', engine='E1', timeout=_T, replay='replay.C08:replay'),
 ]
 
 PROPERTY = dict(
-    functions=['bamtagmultiome.tag_multiome_multi_processing region branch (AST cut)', 'tagging.generate_tasks', 'tagging.run_tagging_task',
+    functions=['bamtagmultiome.tag_multiome_multi_processing region branch (AST cut)', 'tagging.generate_tasks', 'tagging.run_tagging_task', 'tagging.run_tagging_tasks (job bookkeeping: a job that wrote records keeps its output)',
                'bamBinCounts.blacklisted_binning_contigs/blacklisted_binning', 'utils.binning.bp_chunked'],
     bounds={'quick': dict(tiling='2 contigs of length <=4 / <=2, bin <=5, bp_per_job <=7, fragment size unbounded',
                           filter='<=3 molecules in arbitrary iteration order, unbounded sites and windows, molecules without site, 2 contigs',
